@@ -1,11 +1,301 @@
-//! (stub) binding for this area — see DESIGN.md
-use crate::util::Args;
+//! Seeded generator of sample collections (the common input space of C01 C02 C04 C07 C16 C18 C19)
+//! and of their FASTA presentations. The abstract case is written as JSON (`case.json`):
+//!   {"params":{k,segment_size,min_match,threads,...}, "samples":[{"name","contigs":[{"name","seq":[codes]}]}]}
+//! Symbol codes: 0..3 ACGT, 4 N, 5..15 the other IUPAC codes (CNV order A C G T N R Y S W K M B D H V U).
+use crate::util::{self, Args};
 use anyhow::Result;
+use rand::rngs::StdRng;
+use rand::Rng;
+use serde_json::{json, Value};
+use std::io::Write;
 
-/// Returns None when `cmd` is not one of this module's sub-commands.
+pub const CODE2CHAR: [u8; 16] = *b"ACGTNRYSWKMBDHVU";
+
 pub fn dispatch(cmd: &str, a: &Args) -> Option<Result<()>> {
-    let _ = a;
     match cmd {
+        "gen-case" => Some(cmd_gen(a)),
         _ => None,
     }
+}
+
+#[derive(Clone)]
+pub struct Contig {
+    pub name: String,
+    pub seq: Vec<u8>,
+}
+#[derive(Clone)]
+pub struct Sample {
+    pub name: String,
+    pub contigs: Vec<Contig>,
+}
+
+fn rand_seq(r: &mut StdRng, n: usize) -> Vec<u8> {
+    (0..n).map(|_| r.gen_range(0..4u8)).collect()
+}
+
+pub fn rc(s: &[u8]) -> Vec<u8> {
+    s.iter().rev().map(|&c| if c < 4 { 3 - c } else { c }).collect()
+}
+
+/// Mutate a sequence: SNPs, indels, N-runs, IUPAC codes, block duplication.
+fn mutate(r: &mut StdRng, s: &[u8], snp: f64, indel: f64, nrun: f64, iupac: f64) -> Vec<u8> {
+    let mut out = Vec::with_capacity(s.len() + 16);
+    let mut i = 0;
+    while i < s.len() {
+        let x: f64 = r.gen();
+        if x < snp {
+            out.push((s[i] + r.gen_range(1..4u8)) % 4);
+            i += 1;
+        } else if x < snp + indel {
+            if r.gen_bool(0.5) {
+                // insertion of 1..6 bases
+                for _ in 0..r.gen_range(1..7) {
+                    out.push(r.gen_range(0..4u8));
+                }
+            } else {
+                i += r.gen_range(1..7usize).min(s.len() - i);
+            }
+        } else if x < snp + indel + nrun {
+            let l = [1usize, 2, 3, 4, 5, 6, 10, 25, 40][r.gen_range(0..9)];
+            for _ in 0..l {
+                out.push(4);
+            }
+            i += l.min(s.len() - i);
+        } else if x < snp + indel + nrun + iupac {
+            out.push(r.gen_range(5..16u8));
+            i += 1;
+        } else {
+            out.push(s[i]);
+            i += 1;
+        }
+    }
+    out
+}
+
+pub struct GenOpts {
+    pub seed: u64,
+    pub kind: String,
+    pub n_samples: usize,
+    pub n_chrom: usize,
+    pub chrom_len: usize,
+    pub pansn: bool,
+}
+
+/// Kinds:
+///  basic      – reference + variants at mixed divergence
+///  rc         – some contigs are whole-contig reverse complements of the reference's
+///  dup        – identical contigs / identical samples (dedup, same-as-reference)
+///  iupac      – IUPAC codes and N-runs at elevated rates
+///  short      – contigs shorter than k, 1-base contigs, orphan contigs (raw groups)
+///  reorder    – contigs absent / extra / reordered per sample
+///  manysamples– > 50 samples of small contigs (several metadata batches; > 50 entries per group)
+///  manyorphans– > 800 tiny novel contigs (raw groups with several packs)
+pub fn generate(o: &GenOpts) -> Vec<Sample> {
+    let mut r = util::rng(o.seed);
+    let mut base: Vec<Vec<u8>> = (0..o.n_chrom)
+        .map(|_| {
+            let l = (o.chrom_len as f64 * r.gen_range(0.5..1.5)) as usize;
+            rand_seq(&mut r, l.max(1))
+        })
+        .collect();
+    // make the reference itself slightly repetitive: copy a block inside chromosome 0
+    if base[0].len() > 400 && r.gen_bool(0.5) {
+        let blk: Vec<u8> = base[0][50..250].to_vec();
+        let at = base[0].len() / 2;
+        let tail = base[0].split_off(at);
+        base[0].extend_from_slice(&blk);
+        base[0].extend_from_slice(&tail);
+    }
+    let mut samples: Vec<Sample> = Vec::new();
+    let cname = |o: &GenOpts, s: &str, c: usize, desc: bool| -> String {
+        if o.pansn {
+            format!("{}#chr{}", s, c + 1)
+        } else if desc {
+            format!("chr{} len=x  desc\tfield {}", c + 1, c)
+        } else {
+            format!("chr{}", c + 1)
+        }
+    };
+    let sname = |o: &GenOpts, i: usize| -> String {
+        if o.pansn {
+            format!("smp{:03}#{}", i, i % 2)
+        } else {
+            format!("smp{:03}", i)
+        }
+    };
+    for i in 0..o.n_samples {
+        let sn = sname(o, i);
+        let mut contigs: Vec<Contig> = Vec::new();
+        for (c, b) in base.iter().enumerate() {
+            let desc = !o.pansn && (o.seed + c as u64) % 3 == 0;
+            let name = cname(o, &sn, c, desc);
+            let mut seq = if i == 0 {
+                b.clone()
+            } else {
+                let (snp, indel, nrun, iu) = match o.kind.as_str() {
+                    "dup" => (0.0, 0.0, 0.0, 0.0),
+                    "iupac" => (0.01, 0.002, 0.004, 0.01),
+                    "manysamples" => (0.004 * (1 + i % 5) as f64, 0.0005, 0.0, 0.0),
+                    _ => {
+                        let d = [0.0, 0.002, 0.01, 0.03, 0.10][(i + c) % 5];
+                        (d, d / 5.0, if (i + c) % 3 == 0 { 0.002 } else { 0.0 }, if (i + c) % 4 == 0 { 0.003 } else { 0.0 })
+                    }
+                };
+                mutate(&mut r, b, snp, indel, nrun, iu)
+            };
+            if i == 0 && o.kind == "iupac" {
+                seq = mutate(&mut r, b, 0.0, 0.0, 0.003, 0.006);
+            }
+            if i > 0 && (o.kind == "rc" || (o.kind == "basic" && (i + c) % 4 == 1)) && r.gen_bool(0.6) {
+                seq = rc(&seq);
+            }
+            contigs.push(Contig { name, seq });
+        }
+        if i > 0 && o.kind == "dup" && i % 2 == 0 && !contigs.is_empty() {
+            // one extra contig that is an exact copy of another one, and one mutated copy
+            let c0 = contigs[0].seq.clone();
+            contigs.push(Contig { name: cname(o, &sn, 90, false), seq: c0.clone() });
+            contigs.push(Contig { name: cname(o, &sn, 91, false), seq: mutate(&mut r, &c0, 0.01, 0.0, 0.0, 0.0) });
+        }
+        if o.kind == "short" {
+            for (j, l) in [1usize, 2, 5, 8, 13, 30].iter().enumerate() {
+                contigs.push(Contig { name: cname(o, &sn, 50 + j, false), seq: rand_seq(&mut r, *l) });
+            }
+            // orphan contig without any splitter of the reference
+            contigs.push(Contig { name: cname(o, &sn, 70, false), seq: rand_seq(&mut r, 300 + 10 * i) });
+            // short contigs of N / IUPAC only
+            contigs.push(Contig { name: cname(o, &sn, 71, false), seq: vec![4; 7] });
+        }
+        if o.kind == "reorder" && i > 0 {
+            if i % 2 == 1 && contigs.len() > 1 {
+                contigs.remove(0);
+            }
+            if i % 3 == 0 {
+                contigs.reverse();
+            }
+            if i % 2 == 0 {
+                contigs.push(Contig { name: cname(o, &sn, 80, false), seq: rand_seq(&mut r, 700) });
+            }
+        }
+        if o.kind == "manyorphans" && i == o.n_samples - 1 {
+            for j in 0..(16 * 50 + 40) {
+                contigs.push(Contig { name: cname(o, &sn, 1000 + j, false), seq: rand_seq(&mut r, 3 + j % 5) });
+            }
+        }
+        samples.push(Sample { name: sn, contigs });
+    }
+    samples
+}
+
+pub fn to_json(samples: &[Sample]) -> Value {
+    Value::Array(
+        samples
+            .iter()
+            .map(|s| {
+                json!({"name": s.name, "contigs": s.contigs.iter().map(|c| json!({"name": c.name, "seq": c.seq})).collect::<Vec<_>>()})
+            })
+            .collect(),
+    )
+}
+
+pub fn from_json(v: &Value) -> Vec<Sample> {
+    v.as_array()
+        .unwrap()
+        .iter()
+        .map(|s| Sample {
+            name: s["name"].as_str().unwrap().to_string(),
+            contigs: s["contigs"]
+                .as_array()
+                .unwrap()
+                .iter()
+                .map(|c| Contig {
+                    name: c["name"].as_str().unwrap().to_string(),
+                    seq: c["seq"].as_array().unwrap().iter().map(|x| x.as_u64().unwrap() as u8).collect(),
+                })
+                .collect(),
+        })
+        .collect()
+}
+
+/// Presentation options for FASTA text.
+#[derive(Clone)]
+pub struct Present {
+    pub width: usize,   // line width (0 = single line)
+    pub crlf: bool,
+    pub case: u8,       // 0 upper, 1 lower, 2 mixed
+    pub final_newline: bool,
+}
+impl Default for Present {
+    fn default() -> Self {
+        Present { width: 60, crlf: false, case: 0, final_newline: true }
+    }
+}
+
+pub fn fasta_text(contigs: &[Contig], p: &Present, seed: u64) -> Vec<u8> {
+    let mut r = util::rng(seed ^ 0x5151);
+    let nl: &[u8] = if p.crlf { b"\r\n" } else { b"\n" };
+    let mut out = Vec::new();
+    for (ci, c) in contigs.iter().enumerate() {
+        out.push(b'>');
+        out.extend_from_slice(c.name.as_bytes());
+        out.extend_from_slice(nl);
+        let w = if p.width == 0 { c.seq.len().max(1) } else { p.width };
+        for (li, chunk) in c.seq.chunks(w).enumerate() {
+            for &code in chunk {
+                let ch = CODE2CHAR[code as usize];
+                let ch = match p.case {
+                    1 => ch.to_ascii_lowercase(),
+                    2 => if r.gen_bool(0.5) { ch.to_ascii_lowercase() } else { ch },
+                    _ => ch,
+                };
+                out.push(ch);
+            }
+            let last = ci + 1 == contigs.len() && (li + 1) * w >= c.seq.len();
+            if !last || p.final_newline {
+                out.extend_from_slice(nl);
+            }
+        }
+    }
+    out
+}
+
+/// Write one file per sample (`<dir>/<sample>.fa`) or a single PanSN file (`<dir>/pansn.fa`).
+pub fn write_files(dir: &str, samples: &[Sample], pansn_single: bool, p: &Present, seed: u64) -> Result<Vec<String>> {
+    std::fs::create_dir_all(dir)?;
+    let mut paths = vec![];
+    if pansn_single {
+        let path = format!("{}/pansn.fa", dir);
+        let mut f = std::fs::File::create(&path)?;
+        for s in samples {
+            f.write_all(&fasta_text(&s.contigs, p, seed))?;
+        }
+        paths.push(path);
+    } else {
+        for s in samples {
+            let path = format!("{}/{}.fa", dir, s.name);
+            std::fs::write(&path, fasta_text(&s.contigs, p, seed))?;
+            paths.push(path);
+        }
+    }
+    Ok(paths)
+}
+
+fn cmd_gen(a: &Args) -> Result<()> {
+    let o = GenOpts {
+        seed: a.num("seed", 1u64),
+        kind: a.opt("kind").unwrap_or("basic").to_string(),
+        n_samples: a.num("samples", 4usize),
+        n_chrom: a.num("chroms", 2usize),
+        chrom_len: a.num("len", 2000usize),
+        pansn: a.flag("pansn"),
+    };
+    let samples = generate(&o);
+    let dir = a.get("dir")?;
+    let p = Present { width: a.num("width", 60usize), crlf: a.flag("crlf"), case: a.num("case", 0u8), final_newline: !a.flag("no-final-newline") };
+    let files = write_files(dir, &samples, a.flag("single"), &p, o.seed)?;
+    let case = json!({"seed": o.seed, "kind": o.kind, "pansn": o.pansn, "single": a.flag("single"), "files": files, "samples": to_json(&samples)});
+    std::fs::write(format!("{}/case.json", dir), serde_json::to_vec(&case)?)?;
+    println!("{}", json!({"files": files, "n_samples": samples.len(), "n_contigs": samples.iter().map(|s| s.contigs.len()).sum::<usize>(),
+        "bases": samples.iter().map(|s| s.contigs.iter().map(|c| c.seq.len()).sum::<usize>()).sum::<usize>()}));
+    Ok(())
 }
